@@ -137,7 +137,7 @@ def _run_chunk(chunk):
 
 
 def load_known(prop):
-    if not os.path.exists(KNOWN_FILE):
+    if not os.path.exists(KNOWN_FILE) or os.environ.get("KV_NO_KNOWN"):      # KV_NO_KNOWN: development aid
         return []
     with open(KNOWN_FILE) as f:
         data = json.load(f)
